@@ -19,11 +19,17 @@ class FormatError(Exception):
 
 
 # ----------------------------------------------------------------------------- JSON with tagged byte strings
+JSON_STYLE = 0
+
+
 def dumps(obj) -> bytes:
     def enc(o):
         if isinstance(o, (bytes, bytearray)):
             return {'!b': base64.standard_b64encode(bytes(o)).decode('ascii')}
         raise TypeError(type(o))
+    if JSON_STYLE == 1:
+        # the other common spelling of the same JSON: non-ASCII characters as raw UTF-8 (RFC 8259), default separators
+        return json.dumps(obj, default=enc, ensure_ascii=False).encode('utf-8')
     return json.dumps(obj, separators=(',', ':'), default=enc).encode('ascii')
 
 
@@ -189,7 +195,16 @@ class Repo:
 
 
 # ----------------------------------------------------------------------------- writing a repository from scratch
-def write_repository(files, *, encrypted=True, cipher=None, hashing=None, legacy_metadata=False, chunk=5, password=b'refpw', mtime_ns=1_400_000_000_123_456_789):
+def write_repository(files, *, json_style=0, **kw):
+    global JSON_STYLE
+    saved, JSON_STYLE = JSON_STYLE, json_style
+    try:
+        return _write_repository(files, **kw)
+    finally:
+        JSON_STYLE = saved
+
+
+def _write_repository(files, *, encrypted=True, cipher=None, hashing=None, legacy_metadata=False, chunk=5, password=b'refpw', mtime_ns=1_400_000_000_123_456_789):
     """Returns (objs, key_json_bytes_or_None, expected {path: (bytes, mtime_ns)}). Chunking is a plain fixed-size split of the
     padded concatenation (any segmentation is legal for a reader)."""
     hashing = hashing or {'name': 'blake2b', 'length': 64}
@@ -242,7 +257,7 @@ def write_repository(files, *, encrypted=True, cipher=None, hashing=None, legacy
             md = {'st_mode': 0o100644, 'st_uid': 0, 'st_gid': 0, 'st_size': len(files[p]), 'st_atime_ns': mt, 'st_mtime_ns': mt, 'st_ctime_ns': mt}
             expected[p] = (files[p], mt)
         fl.append({'path': p, 'chunks': file_refs[p], 'digest': repo.H(files[p]), 'metadata': md})
-    data = {'utc_timestamp': '2021-03-04 05:06:07.000008', 'files': fl, 'note': 'written by the reference writer'}
+    data = {'utc_timestamp': '2021-03-04 05:06:07.000008', 'files': fl, 'note': 'written by the reference writer \u2713 n\u00f8te'}
     if encrypted:
         encdata = repo.cipher.encrypt(dumps(data), repo.userkey)
         body = dumps({'chunks': repo.cipher.encrypt(dumps(table), repo.shared_subkey(repo.H(encdata))), 'data': encdata})
